@@ -72,6 +72,16 @@ func c01Scenarios(thorough bool) []c01Scenario {
 				Requests: []SetReqOrCall{ord[0].build(), ord[1].build()}},
 			reqs: ord})
 	}
+	// the rejecting model is the SHARED target's: the neighbour's proposal on T1 follows a proposal that itself failed
+	// validation (value-dependent verdict: T1 rejects leafA2=bad only)
+	br := c01Req{name: "B=set(T1,T3) rejected by T1", ops: []ReqOp{upd("T1", "/cont/leafA2", "bad"), upd("T3", "/cont/leafA", "b3")}, rejects: true}
+	out = append(out, c01Scenario{
+		sc: &Scenario{Name: "S3r neighbours: set(T1,T3) rejected by the shared target T1, then A=set(T1,T2)", Cfg: WorldConfig{Targets: []string{"T1", "T2", "T3"}},
+			Init: func(w *World) {
+				w.plugins["T1"].SetVerdict(rejectIf(func(f map[string]string) bool { return f["/cont/leafA2"] == "bad" }, "leafA2 must not be bad"))
+			},
+			Requests: []SetReqOrCall{br.build(), a.build()}},
+		reqs: []c01Req{br, a}})
 	// a valid multi-target Set after a rejected one on a shared target (non-initial start state), with a crash
 	out = append(out, c01Scenario{
 		sc: &Scenario{Name: "S3p rejected set(T1,T3) in the past, then set(T1,T2)", Cfg: WorldConfig{Targets: []string{"T1", "T2", "T3"}},
